@@ -271,62 +271,90 @@ def oracle(sc, res, rng_seed=0):
 
 
 def analyzer_oracle(ctx, n_cases):
-    """differential validation (not proof) of the SpectralAnalyzer front end (Fs taken from the series): its
-    densities obey Parseval like the algorithms it wraps; every case is re-run on exact power-of-two multiples
-    far from its own scale (uniform and per channel) and, for integer samples, as the same samples in float64"""
+    """differential validation (not proof) of the SpectralAnalyzer front end (Fs taken from the series), for every
+    spectral attribute (periodogram, spectrum_multi_taper, psd, cpsd, spectrum_fourier), data of shape (n,), (1, n),
+    (k, n), (j, k, n) and dtype float64 / float32 / int16 / int32 / int64 / complex128:
+      * the densities obey Parseval, judged against the float64 copy of the same samples;
+      * analyzer == algorithm called directly on the float64 copy (periodogram, multi_taper_psd);
+      * every case is re-run on exact power-of-two multiples far from its own scale (uniform and per channel):
+        densities x |a|^2 resp. c_i c_j, spectrum_fourier x a, frequencies unchanged;
+      * non-float64 samples are re-run as the same samples in float64 (float32: to single precision)."""
     import nitime.timeseries as ts
+    import nitime.algorithms.spectral as sp
     from nitime.analysis import SpectralAnalyzer
     rng = ctx.rng
     done = 0
+    shapes = [[], [1], [2], [3], [2, 2], [2, 3], [1], [2]]
+    dtypes = ["float64", "int64", "int32", "float32", "int16", "float64", "complex128", "int64"]
 
     def get(x, fs, attr):
         t = ts.TimeSeries(x, sampling_rate=fs)
         f, p = getattr(SpectralAnalyzer(t), attr)
         return np.asarray(f), np.asarray(p), float(t.sampling_rate)
 
-    def rp(attr, n, lead, cplx, fs, x, **kw):
-        d = {"entry_point": "nitime.analysis.SpectralAnalyzer." + attr, "n": n, "lead": lead, "cplx": cplx, "Fs": fs,
-             "dtype": str(np.asarray(x).dtype),
-             "data": [float(v).hex() for v in np.asarray(x, dtype=complex if cplx else float).view(float).ravel()]}
-        d.update(kw)
-        return d
-
     for i in range(n_cases):
         n = rng.choice([64, 65, 96, 127, 128])
-        lead = rng.choice([[1], [2], [3], [2], [2, 2], [2, 3]])
-        M = int(np.prod(lead))
-        cplx = rng.random() < 0.2
+        lead = shapes[i % len(shapes)]
+        dt = dtypes[(i // 2 + i) % len(dtypes)]
+        M = int(np.prod(lead)) if lead else 1
+        cplx = dt == "complex128"
         fs = rng.choice([1.0, 2.0, 250.0, 1000.0, 0.5])
-        x = S.gen_signal(rng, lead, n, cplx)
-        is_int = (not cplx) and i % 3 == 0
-        if is_int:
-            sc0 = {"est": "periodogram", "shape": list(lead) + [n], "cplx": False}
-            x = S.sc_data(S.force_int(rng, sc0))
-        xf = np.asarray(x, dtype=complex if cplx else float)
+        if dt.startswith("int"):
+            x = S.sc_data(S.force_int(rng, {"est": "periodogram", "shape": list(lead) + [n], "cplx": False}, dtype=dt))
+        else:
+            x = S.gen_signal(rng, lead, n, cplx)
+            if dt == "float32":
+                x = x.astype(np.float32)
+        xf = np.asarray(x, dtype=complex if cplx else float)          # the same samples in float64
+        rtol = 2e-4 if dt == "float32" else REL
         x2 = xf.reshape(M, n)
         power = [float(p) for p in S.frac_power(xf)]
         uni, per = S.scale_factors(xf, i)
-        for attr in ("periodogram", "spectrum_multi_taper", "psd", "cpsd"):
-            if attr == "cpsd" and len(lead) != 1:
+
+        def rp(attr, **kw):
+            d = {"entry_point": "nitime.analysis.SpectralAnalyzer." + attr, "n": n, "lead": lead, "dtype": dt, "Fs": fs,
+                 "data": [float(v).hex() for v in np.ascontiguousarray(xf).view(float).ravel()]}
+            d.update(kw)
+            return d
+
+        for attr in ("periodogram", "spectrum_multi_taper", "psd", "cpsd", "spectrum_fourier"):
+            if attr == "cpsd" and len(lead) > 1:
                 continue
+            key = "C04/SpectralAnalyzer.%s/" % attr
             try:
                 f, p, Fs = get(x, fs, attr)
             except Exception as e:  # noqa
                 if not S.err_in_dpss(e):
-                    ctx.report_fail(Fail("C04/SpectralAnalyzer.%s/exception" % attr, "analyzer raised %r" % e, repr(e), "a spectrum",
-                                         rp(attr, n, lead, cplx, fs, x)))
+                    ctx.report_fail(Fail(key + "exception", "analyzer raised %r" % e, repr(e), "a spectrum", rp(attr)))
                 continue
             done += 1
-            key = "C04/SpectralAnalyzer.%s/" % attr
-            # ---- Parseval
-            want = None
+            linear = attr == "spectrum_fourier"
             if attr == "cpsd":
-                pm = p.reshape(M, M, -1) if M > 1 else p.reshape(1, 1, -1)
+                pm = p.reshape(M, M, -1) if p.ndim == 3 else p.reshape(1, 1, -1)
                 prow = np.einsum("iik->ik", pm)
             else:
                 prow = p.reshape(M, -1)
+            # ---- non-float64 samples vs the same samples in float64
+            if dt not in ("float64", "complex128"):
+                try:
+                    f2, p2, _ = get(xf, fs, attr)
+                    ok, e = close_arr(p, p2, rel=rtol) if p2.shape == p.shape else (False, float("inf"))
+                    if not ok or (dt.startswith("int") and p2.dtype != p.dtype):
+                        ctx.report_fail(Fail(key + "int-dtype", "%s samples give another spectrum than the same samples in float64" % dt,
+                                             {"in_dtype": dt, "out_dtype": str(p.dtype), "relative_deviation": e}, "the same spectrum",
+                                             rp(attr)))
+                        continue
+                except Exception:  # noqa
+                    pass
+            # ---- Parseval (against the float64 copy) and analyzer == algorithm
+            want = None
             if attr == "periodogram":
                 nb, want = n, power
+                fa, pa = sp.periodogram(xf, Fs=Fs)
+                ok, e = close_arr(p, pa, rel=rtol) if np.shape(pa) == p.shape else (False, float("inf"))
+                if not ok:
+                    ctx.report_fail(Fail(key + "equals-algorithm", "analyzer differs from periodogram(data, Fs)", {"relative_deviation": e},
+                                         "equal", rp(attr)))
             elif attr == "spectrum_multi_taper":
                 an = SpectralAnalyzer(ts.TimeSeries(x, sampling_rate=fs))
                 if an.BW is None and not an.adaptive:
@@ -334,10 +362,15 @@ def analyzer_oracle(ctx, n_cases):
                           "adaptive": False, "low_bias": bool(an.low_bias)}
                     S.set_data(sc, x2)
                     r = S.run_scenario(sc)
-                    wp = mt_expected_power(sc, r) if r["err"] is None else None
-                    if wp is not None:
-                        nb, want = n, [float(v) for v in wp]
-            else:
+                    if r["err"] is None:
+                        wp = mt_expected_power(sc, r)
+                        if wp is not None:
+                            nb, want = n, [float(v) for v in wp]
+                        ok, e = close_arr(prow, r["out"].reshape(M, -1), rel=rtol)
+                        if not ok:
+                            ctx.report_fail(Fail(key + "equals-algorithm", "analyzer differs from multi_taper_psd(data, Fs, low_bias)",
+                                                 {"relative_deviation": e, "out_dtype": str(p.dtype)}, "equal", rp(attr)))
+            elif attr in ("psd", "cpsd"):
                 nb = 64
                 want = []
                 for row in x2:
@@ -347,50 +380,47 @@ def analyzer_oracle(ctx, n_cases):
             if want is not None:
                 got = prow.real.sum(axis=-1) * Fs / nb
                 for ch in range(M):
-                    if S.rel_err(got[ch], want[ch]) > REL:
-                        ctx.report_fail(Fail(key + "parseval", "analyzer density does not integrate to the mean power",
-                                             float(got[ch]), float(want[ch]), rp(attr, n, lead, cplx, fs, x)))
+                    if S.rel_err(got[ch], want[ch]) > rtol:
+                        ctx.report_fail(Fail(key + "parseval", "analyzer density does not integrate to the mean power of the samples",
+                                             float(got[ch]), float(want[ch]), rp(attr)))
                         break
             # ---- homogeneity at far scales, uniform and per channel; frequencies unchanged
+            base_f, base_p = f, p
+            if dt != "float64" and dt != "complex128":
+                try:
+                    base_f, base_p, _ = get(xf, fs, attr)        # scaled copies are float64: compare like with like
+                except Exception:  # noqa
+                    continue
             for a in uni:
                 try:
                     f2, p2, _ = get(a * xf, fs, attr)
                 except Exception as e:  # noqa
                     ctx.report_fail(Fail(key + "scale", "analyzer raises on a*x (%r) but not on x" % e, {"a": str(a)},
-                                         "|a|^2 scaling", rp(attr, n, lead, cplx, fs, x, a=str(a))))
+                                         "homogeneity", rp(attr, a=str(a))))
                     break
-                ok, e = close_arr(p2, abs(a) ** 2 * p) if p2.shape == p.shape else (False, float("inf"))
-                if not ok or not np.array_equal(f2, f):
-                    ctx.report_fail(Fail(key + "scale", "analyzer density of a*x is not |a|^2 times the density of x",
-                                         {"a": str(a), "relative_deviation": e, "out_dtype": str(p2.dtype)}, "|a|^2 scaling",
-                                         rp(attr, n, lead, cplx, fs, x, a=str(a))))
+                fac = a if linear else abs(a) ** 2
+                ok, e = close_arr(p2, fac * base_p) if p2.shape == base_p.shape else (False, float("inf"))
+                if not ok or not np.array_equal(f2, base_f):
+                    ctx.report_fail(Fail(key + "scale", "analyzer spectrum of a*x is not %s times the spectrum of x" % ("a" if linear else "|a|^2"),
+                                         {"a": str(a), "relative_deviation": e, "out_dtype": str(p2.dtype)}, "homogeneity",
+                                         rp(attr, a=str(a))))
                     break
             if per is not None:
                 try:
                     f2, p2, _ = get((x2 * per[:, None]).reshape(xf.shape), fs, attr)
                     if attr == "cpsd":
-                        wantp = pm * per[:, None, None] * per[None, :, None]
-                        ok, e = close_arr(p2.reshape(pm.shape), wantp)
+                        bm = base_p.reshape(pm.shape)
+                        ok, e = close_arr(p2.reshape(pm.shape), bm * per[:, None, None] * per[None, :, None])
                     else:
-                        ok, e = close_arr(p2.reshape(M, -1), (per ** 2)[:, None] * prow)
+                        fac = per if linear else per ** 2
+                        ok, e = close_arr(p2.reshape(M, -1), fac[:, None] * base_p.reshape(M, -1))
                     if not ok:
-                        ctx.report_fail(Fail(key + "scale", "scaling channel i by c_i does not scale the analyzer's spectra by c_i c_j",
+                        ctx.report_fail(Fail(key + "scale", "scaling channel i by c_i does not scale the analyzer's spectra accordingly",
                                              {"log2 c": [float(v) for v in np.log2(per)], "relative_deviation": e}, "c_i c_j scaling",
-                                             rp(attr, n, lead, cplx, fs, x)))
+                                             rp(attr)))
                 except Exception as e:  # noqa
                     ctx.report_fail(Fail(key + "scale", "analyzer raises on per-channel scaled data: %r" % e, repr(e), "c_i c_j scaling",
-                                         rp(attr, n, lead, cplx, fs, x)))
-            # ---- integer samples vs the same samples in float64
-            if is_int:
-                try:
-                    f2, p2, _ = get(xf, fs, attr)
-                    ok, e = close_arr(p2, p) if p2.shape == p.shape else (False, float("inf"))
-                    if not ok or p2.dtype != p.dtype:
-                        ctx.report_fail(Fail(key + "int-dtype", "integer-dtype samples give another spectrum than the same samples in float64",
-                                             {"in_dtype": str(x.dtype), "out_dtype": str(p.dtype), "relative_deviation": e},
-                                             "identical result", rp(attr, n, lead, cplx, fs, x)))
-                except Exception as e:  # noqa
-                    pass
+                                         rp(attr)))
     ctx.extra["analyzer_differential_checks"] = done
 
 
@@ -417,7 +447,9 @@ def corpus_scenarios(pid):
     out = []
     if p.exists():
         for f in sorted(p.glob("*.json")):
-            out.append(json.loads(f.read_text())["scenario"])
+            d = json.loads(f.read_text())
+            if "scenario" in d:                 # (files without one document witnesses of the analyzer front end)
+                out.append(d["scenario"])
     return out
 
 
@@ -431,6 +463,10 @@ def gen_all(ctx):
         scs.append(S.gen_scenario(rng, "multi_taper_psd", nmax=32 if q else 96, max_ch=rng.choice([1, 2, 3, 4]) if q else 5))
     for _ in range(ctx.scale(12, 100)):
         scs.append(S.gen_scenario(rng, "periodogram_csd", nmax=24 if q else 64, max_ch=4 if q else 5))
+    # BW * N / Fs exactly on a half-integer (np.round: half to even), k even / odd, and one ulp either side
+    for i in range(ctx.scale(8, 32)):
+        scs.append(S.force_bw_tie(rng, S.gen_scenario(rng, "multi_taper_psd" if i % 3 else "multi_taper_csd", nmax=20, max_ch=2,
+                                                       lead=[2], layout="C"), i))
     # integer-dtype samples (incl. two leading dimensions)
     plan_i = [("periodogram", [2]), ("multi_taper_psd", [2]), ("multi_taper_psd", [2, 2]), ("periodogram_csd", [2]),
               ("multi_taper_csd", [2]), ("periodogram", [2, 3])]
@@ -508,7 +544,7 @@ def run(ctx):
         f.replay = {"entry_point": "nitime.algorithms.spectral." + c.replay["scenario"]["est"]}
         ctx.report_fail(f, c)
     ctx.extra["multitaper_calls_without_a_dpss_windows_call"] = not_seen     # then the harness computed the tapers itself
-    analyzer_oracle(ctx, ctx.scale(6, 40))
+    analyzer_oracle(ctx, ctx.scale(16, 64))
     ctx.extra["model_impl_disagreements"] = len(bad)
     ctx.extra["fft_contract_validations"] = {"ok": nv_ok, "failed": nv_bad}
     ctx.extra["rule"] = ("seeded generator over estimator (periodogram, periodogram_csd, multi_taper_psd fixed/adaptive, Welch "
